@@ -174,9 +174,14 @@ def run_c03(pid):
         for fr in p["frames"]:
             cov.setdefault("chassign", {}).setdefault(fr["chassign"], 0)
             cov["chassign"][fr["chassign"]] += 1
-            for s in fr["subs"]:
+            for ci, s in enumerate(fr["subs"]):
                 cov.setdefault("type", {}).setdefault(s["type"], 0)
                 cov["type"][s["type"]] += 1
+                if p["bps"] == 32 and fr["chassign"] != "indep" and ci == (0 if fr["chassign"] == "sr" else 1):
+                    # the 33-bit side channel: which codings of it were generated (and decoded)
+                    kk = s["type"] + ("+wasted" if s.get("wasted", 0) > 0 else "")
+                    cov.setdefault("side33", {}).setdefault(kk, 0)
+                    cov["side33"][kk] += 1
                 if s["type"] == "lpc":
                     cov.setdefault("lpc_order", {}).setdefault(str(s["order"]), 0)
                     cov["lpc_order"][str(s["order"])] += 1
